@@ -15,7 +15,7 @@ mkdir -p seedtmp && cp "$SEED/demo.py" seedtmp/demo.py
 /venv/bin/python -B seedtmp/demo.py >/dev/null 2>&1; D1=$?
 echo "demo with change: exit $D1"
 for ID in "$@"; do
-  OUT=$(VERIF_REPO="$WT" VERIF_EVID_DIR="$WT/seedtmp/evidence" "$HERE/bin/check" "$ID" 2>&1); RC=$?
+  OUT=$(VERIF_REPO="$WT" VERIF_EVID_DIR="$WT/seedtmp/evidence" VERIF_REPLAY_DIR="$WT/seedtmp/replays" "$HERE/bin/check" "$ID" 2>&1); RC=$?
   N=$(echo "$OUT" | grep -c '^VIOLATION')
   SIG=$(echo "$OUT" | grep 'signature:' | head -2 | sed 's/ *signature: //' | tr '\n' '|')
   echo "check $ID: exit $RC violations=$N $SIG"
